@@ -238,6 +238,8 @@ class ObjectStream(Generic[T]):
         base_ast = self.query_ast
         if len(q_metadata) > 0:
             new_self = self.clone_with_new_ast(copy.copy(base_ast), self.item_type)
+            # The copied node carries the metadata already attached to it: add to it.
+            q_metadata = {**getattr(base_ast, "_q_metadata", {}), **q_metadata}
             new_self.query_ast._q_metadata = q_metadata  # type: ignore
             return new_self
         else:
